@@ -1,5 +1,6 @@
 import Bluebell.Lemmas.Depth
 import Bluebell.Lemmas.Trail
+import Bluebell.Lemmas.BlankLines
 import Bluebell.Convert
 /-!
 # C12 — nesting follows indentation order; layout noise is irrelevant
@@ -21,7 +22,9 @@ Layout: scaling all indentation, writing a tab for `indent_size` spaces and whit
 text leave the result unchanged (`C12_scale_invariant`, `C12_tab_is_spaces`, `C12_blank_around`);
 trailing spaces at the end of any line are invisible to everything after `pre_parse`
 (`C12_trailing_spaces`, `C12_trailing_spaces_same_document`: `Pad a b` is "b is a with blanks inserted
-before newlines or at the end"); blank lines between lines are covered by the metamorphic oracle, not yet by a theorem.
+before newlines or at the end"); extra blank lines between lines leave the indentation stack, every marker and every non-empty line of the
+pre-parsed form where they were (`C12_blank_lines_between`, `C12_newlines_are_blank_lines`); that the grammar then reads
+the same document from it is covered by the metamorphic oracle, not yet by a theorem.
 -/
 namespace Bluebell
 
@@ -112,5 +115,23 @@ example : preParse 2 "a  \n  b \nc   ".toList = preParse 2 "a\n  b\nc".toList :=
 example : (handleIndent 4 [8, 4, 0, -1]).1.head? = some 4 :=
   C12_top_is_indent 4 8 [4, 0, -1] (by decide) (Or.inr (Or.inl (by decide)))
 example : (handleIndent 2 [8, 4, 0, -1]) = ([0, -1], .dedent 2) := by decide
+
+/-- **Extra blank lines between lines**: `k` newline characters written after a newline are `k` empty lines
+in the list `pre_parse` works on, and nothing else changes in that list … -/
+theorem C12_newlines_are_blank_lines (k : Nat) (a b : List Char) :
+    splitLines (a ++ '\n' :: (List.replicate k '\n' ++ b)) = splitLines a ++ List.replicate k [] ++ splitLines b :=
+  splitLines_insert_newlines k a b
+
+/-- … and `k` empty lines anywhere in the list change neither the indentation stack left behind nor the
+sequence of markers and non-empty lines of the result (for every list of lines and every stack): the
+pre-parsed forms differ by empty lines only. -/
+theorem C12_blank_lines_between (k : Nat) (a b : List (List Char)) (st : List Int) :
+    visible (passT (a ++ List.replicate k [] ++ b) st).1 = visible (passT (a ++ b) st).1 ∧
+    (passT (a ++ List.replicate k [] ++ b) st).2 = (passT (a ++ b) st).2 :=
+  passT_insert_blanks k a b st
+
+-- non-vacuity: a nested block split by two blank lines
+example : visible (passT ["a".toList, [], [], "  b".toList, "c".toList] [-1]).1
+    = [.ind, .line "a".toList, .ind, .line "b".toList, .ded, .line "c".toList] := by decide +kernel
 
 end Bluebell
